@@ -38,6 +38,9 @@ type verifPipelineCase struct {
 	// workers told to quit (their quit channel is closed, as dynWorkers does when it scales down) after start-up and BEFORE the
 	// datagrams arrive; the remaining ones process the datagrams
 	Retire int `json:"retire"`
+	// the outgoing queues of the OTHER three pipelines are filled to capacity first (their producers have stalled) and emptied
+	// afterwards; this pipeline must not care
+	FillOthers bool `json:"fill_others"`
 	// enterprise elements to install into ipfix.InfoModel first: [enterprise no, element id, FieldType]
 	ExtElements [][3]uint32 `json:"ext_elements"`
 }
@@ -207,6 +210,27 @@ func verifPipeline(raw []byte) interface{} {
 	// leftovers of an earlier case
 	for len(mq) > 0 {
 		<-mq
+	}
+	if c.FillOthers {
+		others := []chan []byte{ipfixMQCh, netflowV9MQCh, netflowV5MQCh, sFlowMQCh}
+		for _, ch := range others {
+			if ch == mq {
+				continue
+			}
+			for len(ch) < cap(ch) {
+				ch <- []byte("filler")
+			}
+		}
+		defer func() {
+			for _, ch := range others {
+				if ch == mq {
+					continue
+				}
+				for len(ch) > 0 {
+					<-ch
+				}
+			}
+		}()
 	}
 	if c.Retire > 0 && c.Retire < len(quits) {
 		time.Sleep(20 * time.Millisecond) // let every worker reach its receive
